@@ -330,6 +330,67 @@ class C15:
                 'tags': ['weight', 'weight:with-series', 'weight:' + ('ok' if valid else 'error'), 'wkind:' + inp['wkind'],
                          'rows:' + ('asis' if inp.get('rowop') is None else 'reordered')]}
 
+    def _run_replace_series(self, inp):
+        """replace on a SeriesColumn (optionally after its depth was changed: a reduced depth leaves the storage a view):
+        every sample equal to a key holds the mapped value, all others are unchanged, the input is not modified.
+        Judged on the Python side (series cells are outside the Coq cell type)."""
+        import numpy as np
+        from datamatrix import DataMatrix, SeriesColumn, operations as ops
+        n, d0 = inp['rows'], inp['depth0']
+        dm = DataMatrix(length=n)
+        dm.s = SeriesColumn(depth=d0)
+        for i in range(n):
+            dm.s[i] = [float((i + j) % 4) for j in range(d0)]
+        for d in inp.get('depths', []):
+            dm.s.depth = d
+        if inp.get('slice'):
+            dm = dm[:]
+        mapping = {float(k): float(v) for k, v in inp['mapping']}
+        before = np.array(dm.s._seq, copy=True)
+        want = before.copy()
+        for k, v in mapping.items():          # keys and values are disjoint: the order of the passes does not matter
+            want[before == k] = v
+        pyfail = None
+        try:
+            with warnings.catch_warnings():
+                warnings.simplefilter('ignore')
+                r = ops.replace(dm.s, mapping)
+            got = np.array(r._seq)
+            observed = {'result': got.tolist()}
+            if r is dm.s:
+                pyfail = 'replace returned its input column'
+            elif got.shape != want.shape or not np.array_equal(got, want, equal_nan=True):
+                pyfail = 'replace on a series column: expected %r, found %r' % (want.tolist(), got.tolist())
+        except Exception as e:          # noqa: BLE001
+            observed = {'raises': pyobs.exn_name(e), 'msg': str(e)[:200]}
+            pyfail = 'replace on a series column raised %s: %s' % (pyobs.exn_name(e), e)
+        if not np.array_equal(np.array(dm.s._seq), before, equal_nan=True):
+            pyfail = pyfail or 'replace modified its input: %r -> %r' % (before.tolist(), np.array(dm.s._seq).tolist())
+        if pyfail is None and 'result' in observed:
+            r[0, 0] = 99.0
+            if not np.array_equal(np.array(dm.s._seq), before, equal_nan=True):
+                pyfail = 'writing to the result of replace changed the input column'
+        return {'input': inp, 'observed': observed, 'pyfail': pyfail, 'oracle': 'false' if pyfail else 'true', 'model': 'true',
+                'nontrivial': bool((want != before).any()), 'sig': 'replace_series|%s' % _compact(inp),
+                'tags': ['replace', 'replace:series', 'depths:%d' % len(inp.get('depths', []))]}
+
+    def gen_replace_series(self, rng, tier):
+        cases = []
+        for _ in range(24 if tier == 'quick' else 200):
+            d0 = rng.randint(1, 4)
+            depths = []
+            c = rng.random()
+            if c < 0.4 and d0 > 1:
+                depths = [rng.randint(1, d0 - 1)]
+            elif c < 0.6:
+                depths = [d0 + rng.randint(1, 2)]
+            elif c < 0.7 and d0 > 1:
+                depths = [d0 + 1, rng.randint(1, d0)]
+            keys = rng.sample([0.0, 1.0, 2.0, 3.0, 7.0], rng.randint(0, 2))
+            cases.append(self.rerun({'op': 'replace_series', 'rows': rng.randint(1, 4), 'depth0': d0, 'depths': depths,
+                                     'slice': rng.random() < 0.3, 'mapping': [[k, 10.0 + k] for k in keys]}))
+        return cases
+
     def _run_fullfact(self, inp):
         from datamatrix import operations as ops
         levels = inp['levels']
@@ -1041,8 +1102,8 @@ class C15:
 
     def generate(self, rng, tier):
         cases = []
-        for g in (self.gen_weight, self.gen_fullfact, self.gen_ff, self.gen_replace, self.gen_keep, self.gen_z,
-                  self.gen_pending):
+        for g in (self.gen_weight, self.gen_fullfact, self.gen_ff, self.gen_replace, self.gen_replace_series, self.gen_keep,
+                  self.gen_z, self.gen_pending):
             cases.extend(g(rng, tier))
         return cases
 
@@ -1056,6 +1117,8 @@ class C15:
                     yield {'op': op, 'levels': lv[:i] + lv[i + 1:]}
                 if lv[i] > 1:
                     yield {'op': op, 'levels': lv[:i] + [lv[i] - 1] + lv[i + 1:]}
+            return
+        if op == 'replace_series':
             return
         if op == 'weight_series':
             ws = inp['weights']
@@ -1113,6 +1176,8 @@ class C15:
             return '_fullfact levels=%s' % (i['levels'],)
         if i['op'] == 'weight_series':
             return 'weight with SeriesColumn %s' % _compact(i)
+        if i['op'] == 'replace_series':
+            return 'replace on a SeriesColumn %s' % _compact(i)
         t = i['tab']
         extra = {k: v for k, v in i.items() if k not in ('op', 'tab', 'tags')}
         return '%s %s table=%s' % (i['op'], _compact(extra), _compact(t))
